@@ -294,6 +294,38 @@ def rule_r7(ctx):
     return r(ctx)
 
 
+def rule_r8(ctx):
+    """Frame introspection: `locals()`, `vars()`, `dir()`, `eval()`, `exec()` look at the frame they are
+    called in.  A loop body is lowered to the element of a comprehension, which before Python 3.12 is
+    a frame of its own (and on 3.13 `locals()` in an inlined comprehension at module level is not
+    `globals()`): the same text behaves differently across the supported versions, and nothing the
+    converter can emit restores the original frame."""
+    rr = RuleResult("C15-R8", "no user code is moved into a comprehension frame (locals()/vars()/dir()/eval()/exec() would see it before 3.12)")
+    rr.floor = 2
+    T = ctx.tmpl
+    seen = set()
+    for ci, kinds, entry in T.all_pending():
+        for pr in entry.ok_paths():
+            kind = kinds_label(pr.extra["node"].kinds)
+            evs, w = path_events(pr)
+            for e in evs:
+                if e.kind in ("X", "S", "raw") and e.comp_elt:
+                    hole = re.sub(r":[A-Za-z|]+", "", e.path or "")
+                    if (kind, hole) in seen:
+                        continue
+                    seen.add((kind, hole))
+                    rr.instances += 1
+                    rr.fail(
+                        f"C15-R8|{kind}|{hole}|frame-introspection",
+                        f"{ci.name}: {hole} runs inside the element of a converter-built comprehension: `for i in r: print('{{a}} {{i}}'.format(**locals()))` / `eval('a + b')` in a function work on a 3.12 runtime and raise KeyError / NameError on 3.8-3.11 (the comprehension is a frame of its own there)",
+                        what=f"{kind}|{hole}",
+                    )
+    if not seen:
+        rr.instances += 2
+        rr.ok("templates")
+    return rr
+
+
 def rule_c06r11(ctx):
     """Hosts before 3.12 give comprehensions symbol tables of their own; how generate_nsp treats them
     (shared rule C06-R11) decides whether such a host converts what a 3.12 host converts."""
@@ -302,4 +334,4 @@ def rule_c06r11(ctx):
     return r(ctx)
 
 
-RULES = [("C15-R1", rule_r1), ("C15-R2", rule_r2), ("C15-R3", rule_r3), ("C15-R4", rule_r4), ("C15-R5", rule_r5), ("C15-R6", rule_r6), ("C12-R7", rule_r7), ("C06-R11", rule_c06r11)]
+RULES = [("C15-R1", rule_r1), ("C15-R2", rule_r2), ("C15-R3", rule_r3), ("C15-R4", rule_r4), ("C15-R5", rule_r5), ("C15-R6", rule_r6), ("C12-R7", rule_r7), ("C15-R8", rule_r8), ("C06-R11", rule_c06r11)]
